@@ -37,6 +37,21 @@ def build_c11():
             ], modifies=[], props=["C11"])
         c.concrete_env = {"UNSET": __import__("formulaic.transforms.contrasts", fromlist=["UNSET"]).UNSET}
         cs.append(reg.add(c))
+    # the column to delete from a FULL-rank coding to make it the reduced one is the REFERENCE level's: the requested base, else the
+    # default reference of the coding (Treatment: the first level, SAS: the last); a reduced coding has nothing to drop
+    for cls, dflt in (("TreatmentContrasts", "levels[0]"), ("SASContrasts", "levels[len(levels) - 1]")):
+        d = Contract(
+            f"formulaic/transforms/contrasts.py::{cls}.get_drop_field",
+            params={"self": {"__class__": cls, "base": TOpt(LEVEL)}, "levels": TSeq(LEVEL), "reduced_rank": "Bool"}, returns=TOpt(LEVEL), globals=G,
+            requires=["len(levels) > 0"], raises={},
+            ensures=[
+                "implies(reduced_rank, result is None)",
+                "implies(not reduced_rank and self.base is not UNSET, result == self.base)",
+                f"implies(not reduced_rank and self.base is UNSET, result == {dflt})",
+            ], modifies=[], props=["C11"])
+        d.concrete_env = {"UNSET": __import__("formulaic.transforms.contrasts", fromlist=["UNSET"]).UNSET}
+        d.no_monitor = True
+        cs.append(reg.add(d))
     return reg, cs
 
 
